@@ -29,6 +29,8 @@ type boolFn struct {
 	// constOf: "path=constant" -> the path holds that constant (comparisons of a
 	// member with a constant: a wildcard such as `country == ""`)
 	constOf map[string]bool
+	// locals: boolean locals of the function (`var ok bool`, `ok = a == nil`)
+	locals map[*types.Var]bool
 }
 
 // constKey names the comparison of a tracked path with a constant.
@@ -65,6 +67,11 @@ func (f *boolFn) eval(e ast.Expr) (bool, bool) {
 		}
 		if x.Name == "false" {
 			return false, true
+		}
+		if v, ok := f.info.Uses[x].(*types.Var); ok {
+			if val, has := f.locals[v]; has {
+				return val, true
+			}
 		}
 	case *ast.UnaryExpr:
 		if x.Op == token.NOT {
@@ -188,6 +195,71 @@ func (f *boolFn) run(list []ast.Stmt) (bool, bool, bool) {
 			}
 			v, ok := f.eval(st.Results[0])
 			return v, true, ok
+		case *ast.DeclStmt:
+			// var ok bool
+			gd, _ := st.Decl.(*ast.GenDecl)
+			if gd == nil {
+				f.why = "declaration has no model"
+				return false, false, false
+			}
+			for _, sp := range gd.Specs {
+				vs, isV := sp.(*ast.ValueSpec)
+				if !isV {
+					continue
+				}
+				for i, nm := range vs.Names {
+					v, _ := f.info.Defs[nm].(*types.Var)
+					if v == nil || !types.Identical(v.Type().Underlying(), types.Typ[types.Bool]) {
+						f.why = "declaration of a non-boolean local has no model"
+						return false, false, false
+					}
+					val := false
+					if i < len(vs.Values) {
+						var ok bool
+						if val, ok = f.eval(vs.Values[i]); !ok {
+							return false, false, false
+						}
+					}
+					if f.locals == nil {
+						f.locals = map[*types.Var]bool{}
+					}
+					f.locals[v] = val
+				}
+			}
+		case *ast.AssignStmt:
+			if len(st.Lhs) != 1 || len(st.Rhs) != 1 {
+				f.why = "assignment has no model"
+				return false, false, false
+			}
+			id, _ := ast.Unparen(st.Lhs[0]).(*ast.Ident)
+			var v *types.Var
+			if id != nil {
+				if st.Tok == token.DEFINE {
+					v, _ = f.info.Defs[id].(*types.Var)
+				} else {
+					v, _ = f.info.Uses[id].(*types.Var)
+				}
+			}
+			if v == nil || !types.Identical(v.Type().Underlying(), types.Typ[types.Bool]) {
+				f.why = "assignment to something other than a boolean local has no model"
+				return false, false, false
+			}
+			val, ok := f.eval(st.Rhs[0])
+			if !ok {
+				return false, false, false
+			}
+			if f.locals == nil {
+				f.locals = map[*types.Var]bool{}
+			}
+			f.locals[v] = val
+		case *ast.BlockStmt:
+			r, ret, ok := f.run(st.List)
+			if !ok {
+				return false, false, false
+			}
+			if ret {
+				return r, true, true
+			}
 		default:
 			f.why = fmt.Sprintf("statement %T has no model", s)
 			return false, false, false
@@ -330,6 +402,7 @@ func c02Matching(c *core.Ctx) {
 			c.Ob("C02-R1", fd.Name()+"#compares-all", fd.Decl.Pos(), false, "the group identity does not compare: "+strings.Join(ms, ", ")+" — rows that differ only in it are merged")
 			continue
 		}
+		c.Ob("C02-R1", fd.Name()+"#compares-all", fd.Decl.Pos(), true, "")
 		nilPaths := []string{"R.Percent", "O.Percent", "R.Surcharge", "O.Surcharge"}
 		rows, badRows := 0, 0
 		firstBad := ""
@@ -1109,8 +1182,17 @@ func c02EveryLineMapped(c *core.Ctx) {
 				if !ok || len(as.Lhs) != 1 || store != nil {
 					return true
 				}
-				if _, isIdx := ast.Unparen(as.Lhs[0]).(*ast.IndexExpr); isIdx {
-					store = as
+				// X[i] = …, or a member of the element: X[i].f = …
+				for l := ast.Unparen(as.Lhs[0]); ; {
+					if _, isIdx := l.(*ast.IndexExpr); isIdx {
+						store = as
+						break
+					}
+					se, isSel := l.(*ast.SelectorExpr)
+					if !isSel {
+						break
+					}
+					l = ast.Unparen(se.X)
 				}
 				if call, isCall := ast.Unparen(as.Rhs[0]).(*ast.CallExpr); isCall {
 					if id, isId := call.Fun.(*ast.Ident); isId && id.Name == "append" && len(call.Args) >= 2 && core.VarOf(info, call.Args[0]) == core.VarOf(info, as.Lhs[0]) && core.VarOf(info, as.Lhs[0]) != nil {
